@@ -87,6 +87,8 @@ void harness (void)
   inputs[0][0] = "a+a*a"; inputs[0][1] = "a+*a"; inputs[1][0] = "a;a;"; inputs[1][1] = "a;ba;";
   base = sx_live_heap_blocks ();
   for (i = 0; i < NOBJ; i++) { ob[i].g = NULL; ob[i].def = -1; }
+  /* the objects exist (fresh) at the start of the history; `create' is possible again after `free' */
+  for (i = 0; i < nobj; i++) { ob[i].g = yaep_create_grammar (); sx_assume (ob[i].g != NULL); ob[i].la = 1; ob[i].one = 1; ob[i].cost = 0; ob[i].rec = 1; }
   for (step = 0; step < K; step++)
     {
       int act = sx_choice ("action", 13), t = sx_choice ("object", nobj);
